@@ -23,8 +23,8 @@ type classLoop struct {
 	fn     *ssa.Function
 	fi     *fnInfo
 	loop   *loopInfo
-	source string               // name of the ast.Task field ranged over
-	accs   map[string]*ssa.Phi  // Task field name -> the loop-carried accumulator stored into it
+	source string                 // name of the ast.Task field ranged over
+	accs   map[string]*ssa.Phi    // Task field name -> the loop-carried accumulator stored into it
 	apps   map[string][]*ssa.Call // Task field name -> append calls inside the loop that grow it
 }
 
